@@ -30,6 +30,8 @@ def cases(draw, tier="quick", pools=None, frameworks=gen.FRAMEWORKS):
     big = tier == "thorough"
     samples = draw(gen.sample_lists(universe, max_samples=8 if big else 5, max_leaves=14 if big else 10))
     opts = draw(gen.option_sets(universe, frameworks=frameworks))
+    if not opts["unicode"] and any(gen.nfkc_unstable(k) for k in universe):
+        opts["unicode"] = True      # finding nfkc-unstable-key-without-transliteration, excluded by construction
     return {"samples": samples, "opts": opts}
 
 
@@ -47,6 +49,8 @@ def valid(case):
         for x in s:
             ks = list(all_keys(x))
             if gen.class_name_collision(sorted(set(ks))):
+                return False
+            if not o.get("unicode", True) and any(gen.nfkc_unstable(k) for k in ks):
                 return False
             if any(not isinstance(k, str) or gen.key_status(k) is not None for k in ks):
                 return False
